@@ -241,8 +241,16 @@ Theorem C08_AllocateTokensToStakers : forall R l l' rewards,
 Proof. exact alloc_stakers_perm. Qed.
 Print Assumptions C08_AllocateTokensToStakers.
 
-(* the same from the source of the disorder: any order of the avsAssets map, list built asset by asset, sorted by
-   power (descending) by a sort that keeps ties in input order *)
+(* the same from the source of the disorder, in the shape the code has at HEAD: the stakers are visited asset by asset
+   in any order of the avsAssets map, a staker met again is not listed again but its power is added up, the list is
+   sorted by accumulated power (descending) by a sort that leaves ties in input order *)
+Theorem C08_AllocateTokens_accumulated : forall R occ occ' rewards,
+  Permutation occ occ' ->
+  feq (fst (alloc_accum R occ rewards)) (fst (alloc_accum R occ' rewards)) /\
+  snd (alloc_accum R occ rewards) = snd (alloc_accum R occ' rewards).
+Proof. exact alloc_accum_perm. Qed.
+Print Assumptions C08_AllocateTokens_accumulated.
+
 Theorem C08_AllocateTokens_from_assets : forall R stakers_of power assets assets' rewards,
   Permutation assets assets' ->
   feq (fst (alloc_from_assets R stakers_of power assets rewards)) (fst (alloc_from_assets R stakers_of power assets' rewards)) /\
@@ -304,15 +312,26 @@ Example ex_alloc_ties :
   snd (alloc_stakers (10 * dec_one) l fempty) = 0.
 Proof. vm_compute. split; reflexivity. Qed.
 
-(* stakers 4 and 5 have equal power through different assets: the sorted list ends with 5 or with 4 depending on
-   the asset order, the rewards do not care *)
+(* stakers 4 and 5 have equal power through different assets: the list (each staker once, powers accumulated) ends
+   with 5 or with 4 depending on the asset order, the rewards do not care *)
 Example ex_alloc_from_assets :
   let so := fun a => if a =? 1 then [1; 2; 4] else [1; 2; 5] in
-  let pw := fun s => if s <=? 2 then 40 else 3 in
-  map fst (sort_by (fun sp => - snd sp) (flat_map (fun a => map (fun s => (s, pw s)) (so a)) [1; 2])) = [1; 2; 1; 2; 4; 5] /\
-  map fst (sort_by (fun sp => - snd sp) (flat_map (fun a => map (fun s => (s, pw s)) (so a)) [2; 1])) = [1; 2; 1; 2; 5; 4] /\
+  let pw := fun (_ s : Z) => if s <=? 2 then 40 else 3 in
+  let occ := fun assets => flat_map (fun a => map (fun s => (s, pw a s)) (so a)) assets in
+  let lst := fun o => sort_by (fun sp => - snd sp) (map (fun s => (s, acc_power o s)) (first_occ (map fst o))) in
+  lst (occ [1; 2]) = [(1, 80); (2, 80); (4, 3); (5, 3)] /\
+  lst (occ [2; 1]) = [(1, 80); (2, 80); (5, 3); (4, 3)] /\
   dump [1; 2; 4; 5] (fst (alloc_from_assets (7 * dec_one) so pw [1; 2] fempty)) =
   dump [1; 2; 4; 5] (fst (alloc_from_assets (7 * dec_one) so pw [2; 1] fempty)).
+Proof. vm_compute. repeat split. Qed.
+
+(* the AVS hook: a group whose task info cannot be read is skipped, the others are written; any order *)
+Example ex_hook_groups :
+  let g1 := (1, (true, [mkTask 7 true (Some 5); mkTask 3 true None; mkTask 9 false (Some 2)])) in
+  let g2 := (2, (false, [mkTask 7 true (Some 5)])) in
+  let g3 := (3, (true, [mkTask 4 true (Some 1)])) in
+  dump [1; 2; 3] (hook_groups [g1; g2; g3] fempty) = dump [1; 2; 3] (hook_groups [g3; g2; g1] fempty) /\
+  hook_groups [g1; g2; g3] fempty 1 = Some ([3; 7], [(7, 5)], 5) /\ hook_groups [g1; g2; g3] fempty 2 = None.
 Proof. vm_compute. repeat split. Qed.
 
 Example ex_median : report_aggregate [(1, 30); (2, 10); (3, 20)] = Some 20 /\ report_aggregate [(1, 30); (2, 11)] = Some 20 /\
